@@ -8,8 +8,8 @@
 use crate::core::*;
 use crate::rng::{Digest, Rng};
 use chia_datalayer::{
-    Hash, InsertLocation, KeyId, MerkleBlob, Node, ProofOfInclusion, Side, TreeIndex, ValueId,
-    BLOCK_SIZE,
+    BreadthFirstIterator, Hash, InsertLocation, KeyId, LeftChildFirstIterator, MerkleBlob, Node,
+    ParentFirstIterator, ProofOfInclusion, Side, TreeIndex, ValueId, BLOCK_SIZE,
 };
 use chia_protocol::Bytes32;
 use serde::{Deserialize, Serialize};
@@ -52,6 +52,12 @@ pub enum Op {
     Proofs,
     RestartMem,
     RestartFile,
+    /// a second party rebuilds the tree from the store's file through the node-map path
+    /// (`collect_and_return_from_merkle_blob` + `build_blob_from_node_list`) and carries on
+    /// from the rebuilt blob; only defined for a non-empty tree with clean, pairwise distinct
+    /// hashes and at most 60 levels (a no-op otherwise)
+    #[serde(alias = "RestartDelta")]
+    RestartRebuild,
 }
 
 impl Op {
@@ -67,10 +73,11 @@ impl Op {
             Op::Proofs => "proofs",
             Op::RestartMem => "restart_mem",
             Op::RestartFile => "restart_file",
+            Op::RestartRebuild => "restart_rebuild",
         }
     }
     fn is_restart(&self) -> bool {
-        matches!(self, Op::RestartMem | Op::RestartFile)
+        matches!(self, Op::RestartMem | Op::RestartFile | Op::RestartRebuild)
     }
 }
 
@@ -224,7 +231,7 @@ impl Model {
                     None => Expect::Ok,
                 }
             }
-            Op::Lazy | Op::Proofs | Op::RestartMem | Op::RestartFile => Expect::Ok,
+            Op::Lazy | Op::Proofs | Op::RestartMem | Op::RestartFile | Op::RestartRebuild => Expect::Ok,
         }
     }
 
@@ -457,6 +464,8 @@ fn check_views(blob: &MerkleBlob, model: &Model, after: &str) -> Result<(), Fail
         return Ok(());
     }
     // (a) the tree as reachable from the root
+    // internal nodes met by the walk: (index, left, right), in pre-order
+    let mut internals: Vec<(TreeIndex, TreeIndex, TreeIndex)> = vec![];
     let walked: Result<Vec<(TreeIndex, i64, i64, Hash)>, String> = guard(|| {
         let mut out = vec![];
         if nblocks == 0 {
@@ -480,6 +489,7 @@ fn check_views(blob: &MerkleBlob, model: &Model, after: &str) -> Result<(), Fail
             match node {
                 Node::Leaf(l) => out.push((i, l.key.0, l.value.0, l.hash)),
                 Node::Internal(x) => {
+                    internals.push((i, x.left, x.right));
                     stack.push((x.right, Some(i)));
                     stack.push((x.left, Some(i)));
                 }
@@ -536,9 +546,31 @@ fn check_views(blob: &MerkleBlob, model: &Model, after: &str) -> Result<(), Fail
                     && matches!(w[1].1, Node::Internal(x) if x.left == w[0].0 || x.right == w[0].0)
             })
             && lin.iter().all(|(x, nd)| blob.get_node(*x).ok() == Some(*nd));
+        let ok = ok
+            && match guard(|| blob.get_lineage_blocks_with_indexes(*i)) {
+                Ok(Ok(bl)) => bl.len() == lin.len() && bl.iter().zip(lin.iter()).all(|((bi, b), (x, nd))| bi == x && b.node == *nd),
+                _ => false,
+            };
         if !ok {
             return Err(mism("lineage", format!("key {k}: lineage {:?} is not the path from leaf {i} to the root", lin_idx)));
         }
+    }
+    // (e) the three tree iterators over the serialized bytes, from the root and from a subtree
+    check_iterators(blob, &walked, &internals, None).map_err(|(w, d)| match w {
+        "panic" => fail(format!("panic:iterators:after_{after}"), d),
+        w => mism(w, d),
+    })?;
+    if let Some((sub, _, _)) = internals.get(internals.len() / 2) {
+        check_iterators(blob, &walked, &internals, Some(*sub)).map_err(|(w, d)| match w {
+            "panic" => fail(format!("panic:iterators:after_{after}"), d),
+            w => mism(w, d),
+        })?;
+    }
+    if let Some((leaf, _, _, _)) = walked.get(walked.len() / 3) {
+        check_iterators(blob, &walked, &internals, Some(*leaf)).map_err(|(w, d)| match w {
+            "panic" => fail(format!("panic:iterators:after_{after}"), d),
+            w => mism(w, d),
+        })?;
     }
     // every entry of the full view points at a node carrying that hash
     let internal = n.saturating_sub(1);
@@ -549,6 +581,91 @@ fn check_views(blob: &MerkleBlob, model: &Model, after: &str) -> Result<(), Fail
         match blob.get_node(*i) {
             Ok(nd) if nd.hash() == *h && all_h.contains(h) => {}
             other => return Err(mism("all_hashes", format!("hash listed at index {i} but the node there is {other:?}"))),
+        }
+    }
+    Ok(())
+}
+
+/// The iterators of `iterators.rs` read the serialized bytes directly. Started at `from` (the
+/// root when None) each must yield, without an error item, exactly the nodes of that subtree
+/// (`BreadthFirstIterator`: exactly its leaves), each with the block stored at that index, in the
+/// order its documentation states: left-child-first = left sibling first and children before
+/// parents; parent-first = left sibling first and parents before children; breadth-first =
+/// left sibling first and depth never decreasing.
+fn check_iterators(
+    blob: &MerkleBlob,
+    walked: &[(TreeIndex, i64, i64, Hash)],
+    internals: &[(TreeIndex, TreeIndex, TreeIndex)],
+    from: Option<TreeIndex>,
+) -> Result<(), (&'static str, String)> {
+    let bytes = blob.read_blob();
+    let children: BTreeMap<u32, (TreeIndex, TreeIndex)> = internals.iter().map(|(i, l, r)| (i.0, (*l, *r))).collect();
+    let leaf_set: BTreeSet<u32> = walked.iter().map(|(i, ..)| i.0).collect();
+    // the subtree under `from`, with depths
+    let mut depth: BTreeMap<u32, u32> = BTreeMap::new();
+    if !leaf_set.is_empty() {
+        let mut stack = vec![(from.unwrap_or(TreeIndex(0)), 0u32)];
+        while let Some((i, d)) = stack.pop() {
+            depth.insert(i.0, d);
+            if let Some((l, r)) = children.get(&i.0) {
+                stack.push((*l, d + 1));
+                stack.push((*r, d + 1));
+            }
+        }
+    }
+    type Items = Vec<Result<(TreeIndex, chia_datalayer::Block), chia_datalayer::Error>>;
+    let collected = guard(|| {
+        let a: Items = LeftChildFirstIterator::new(bytes, from).take(depth.len() + 2).collect();
+        let b: Items = ParentFirstIterator::new(bytes, from).take(depth.len() + 2).collect();
+        let c: Items = BreadthFirstIterator::new(bytes, from).take(depth.len() + 2).collect();
+        (a, b, c)
+    })
+    .map_err(|p| ("panic", p))?;
+    let (lcf, pf, bf) = collected;
+    for (name, items, leaves_only) in [("left_child_first", lcf, false), ("parent_first", pf, false), ("breadth_first", bf, true)] {
+        let what: &'static str = match name {
+            "left_child_first" => "iterator_left_child_first",
+            "parent_first" => "iterator_parent_first",
+            _ => "iterator_breadth_first",
+        };
+        let mut pos: BTreeMap<u32, usize> = BTreeMap::new();
+        let mut last_depth = 0u32;
+        for (n, it) in items.iter().enumerate() {
+            let (i, block) = match it {
+                Ok(x) => x,
+                Err(e) => return Err((what, format!("from {from:?}: item {n} is an error: {e}"))),
+            };
+            let Some(d) = depth.get(&i.0) else {
+                return Err((what, format!("from {from:?}: yields index {i}, which is not in the subtree")));
+            };
+            if pos.insert(i.0, n).is_some() {
+                return Err((what, format!("from {from:?}: yields index {i} twice")));
+            }
+            if blob.get_node(*i).ok() != Some(block.node) {
+                return Err((what, format!("from {from:?}: block yielded for index {i} is not the node stored there")));
+            }
+            if leaves_only {
+                if !leaf_set.contains(&i.0) {
+                    return Err((what, format!("from {from:?}: yields internal node {i}")));
+                }
+                if *d < last_depth {
+                    return Err((what, format!("from {from:?}: depth decreases at index {i}")));
+                }
+                last_depth = *d;
+            }
+        }
+        let expected = if leaves_only { depth.keys().filter(|i| leaf_set.contains(i)).count() } else { depth.len() };
+        if pos.len() != expected {
+            return Err((what, format!("from {from:?}: yields {} nodes, the subtree has {expected}", pos.len())));
+        }
+        if !leaves_only {
+            for (i, (l, r)) in &children {
+                let (Some(pi), Some(pl), Some(pr)) = (pos.get(i), pos.get(&l.0), pos.get(&r.0)) else { continue };
+                let ok = if name == "left_child_first" { pl < pr && pr < pi } else { pi < pl && pl < pr };
+                if !ok {
+                    return Err((what, format!("from {from:?}: order of node {i} and its children {l}, {r} is ({pi}, {pl}, {pr})")));
+                }
+            }
         }
     }
     Ok(())
@@ -621,6 +738,34 @@ fn check_hashes(blob: &MerkleBlob, model: &Model, c: &mut Counters) -> Result<()
         }
     }
     Ok(())
+}
+
+/// The node-map rebuild path is defined for a non-empty tree whose node hashes are pairwise
+/// distinct (its maps are keyed by hash) and that is at most 60 levels deep (it recurses, with
+/// a documented limit of 64).
+fn rebuild_precondition(blob: &MerkleBlob) -> bool {
+    let nblocks = blob.read_blob().len() / BLOCK_SIZE;
+    if nblocks == 0 {
+        return false;
+    }
+    let mut seen: BTreeSet<[u8; 32]> = BTreeSet::new();
+    let mut stack = vec![(TreeIndex(0), 0u32)];
+    let mut visited = 0usize;
+    while let Some((i, d)) = stack.pop() {
+        visited += 1;
+        if visited > nblocks || d > 60 {
+            return false;
+        }
+        let Ok(node) = blob.get_node(i) else { return false };
+        if !seen.insert(node.hash().0.to_bytes()) {
+            return false;
+        }
+        if let Node::Internal(x) = node {
+            stack.push((x.left, d + 1));
+            stack.push((x.right, d + 1));
+        }
+    }
+    true
 }
 
 type ProofSnapshot = BTreeMap<i64, Result<ProofOfInclusion, String>>;
@@ -871,6 +1016,62 @@ impl C18 {
                     c.inc("clone_checks");
                     Ok(Ok(()))
                 }
+                Op::RestartRebuild => {
+                    let root_before = root_state(&blob);
+                    let shape_ok = guard(|| rebuild_precondition(&blob)).unwrap_or(false);
+                    if let (RootState::Clean(root), true) = (root_before.clone(), shape_ok) {
+                        if !in_epilogue {
+                            had_fault = true;
+                            c.inc("fault.restart_rebuild");
+                        }
+                        let proofs_before = match snapshot_proofs(&blob, &model) {
+                            Ok(p) => p,
+                            Err(p) => bail!(fail("panic:get_proof_of_inclusion".into(), p)),
+                        };
+                        let path = ctx.scratch.join("blob.zst");
+                        let rebuilt = guard(|| {
+                            blob.to_path(&path).map_err(|e| format!("to_path: {e}"))?;
+                            let wanted: std::collections::HashSet<Hash> = [root].into_iter().collect();
+                            let (nodes, index_of) = chia_datalayer::collect_and_return_from_merkle_blob(&path, &wanted, |_| false)
+                                .map_err(|e| format!("collect_and_return_from_merkle_blob: {e}"))?;
+                            let mut used = std::collections::HashSet::new();
+                            let nb = MerkleBlob::build_blob_from_node_list(&nodes, root, &std::collections::HashSet::new(), &mut used)
+                                .map_err(|e| format!("build_blob_from_node_list: {e}"))?;
+                            Ok::<_, String>((nb, index_of, used.len()))
+                        });
+                        let (nb, index_of, used) = match rebuilt {
+                            Err(p) => bail!(fail("panic:reload:restart_rebuild".into(), p)),
+                            Ok(Err(e)) => bail!(fail("rebuild_failed".into(), format!("the node-map path cannot rebuild the tree from the store's own file: {e}"))),
+                            Ok(Ok(x)) => x,
+                        };
+                        let n = model.kv.len();
+                        if used != 2 * n - 1 || index_of.len() != 2 * n - 1 {
+                            bail!(fail("rebuild_diff:node_count".into(), format!("{} nodes used, {} indexed, the tree has {}", used, index_of.len(), 2 * n - 1)));
+                        }
+                        // the hash -> index map of the file names the store's own blocks
+                        for (k, (_, h)) in model.kv.iter().step_by((n / 16).max(1)) {
+                            let want = blob.get_key_index(KeyId(*k)).ok();
+                            if index_of.get(&hash_of(*h)).copied() != want || want.is_none() {
+                                bail!(fail("rebuild_diff:index_of".into(), format!("leaf of key {k} is at {want:?} in the file, reported at {:?}", index_of.get(&hash_of(*h)))));
+                            }
+                        }
+                        let root_after = root_state(&nb);
+                        if root_after != root_before {
+                            bail!(fail("rebuild_diff:root".into(), format!("root {root_before:?} became {root_after:?}")));
+                        }
+                        let proofs_after = match snapshot_proofs(&nb, &model) {
+                            Ok(p) => p,
+                            Err(p) => bail!(fail("panic:get_proof_of_inclusion".into(), p)),
+                        };
+                        if proofs_after != proofs_before {
+                            bail!(fail("rebuild_diff:proofs".into(), "proofs differ after the rebuild".into()));
+                        }
+                        blob = nb; // the rebuilt blob (another block layout) carries on
+                    } else {
+                        c.inc("probe.restart_rebuild_not_defined_here");
+                    }
+                    Ok(Ok(()))
+                }
                 Op::RestartMem | Op::RestartFile => {
                     // crash point: only the bytes survive
                     if !in_epilogue {
@@ -1022,6 +1223,10 @@ struct Gen<'a> {
     keyspace: u64,
     model: Model,
     fresh_hash: u64,
+    /// (key, value, hash id) of the most recently deleted leaf, and of the state a key had
+    /// before its most recent upsert: operations that restore an earlier state byte for byte
+    last_deleted: Option<(i64, i64, u64)>,
+    before_upsert: Option<(i64, i64, u64)>,
 }
 
 impl Gen<'_> {
@@ -1148,7 +1353,7 @@ impl Engine for C18 {
                 "sampling: a clean batch is evidence, not proof",
             ],
             fault_kinds: vec![
-                "restart_mem", "restart_file", "failed_op.dup_key", "failed_op.dup_hash", "failed_op.upsert_foreign_hash",
+                "restart_mem", "restart_file", "restart_rebuild", "failed_op.dup_key", "failed_op.dup_hash", "failed_op.upsert_foreign_hash",
                 "failed_op.unknown_key", "failed_op.asroot_nonempty", "failed_op.bad_location", "failed_op.batch_conflict",
             ],
         }
@@ -1203,7 +1408,7 @@ impl Engine for C18 {
         }
         let conflict_pct = if faults { *rng.pick(&[0u64, 10, 25, 50]) } else { 0 };
         let total: u64 = w.iter().sum();
-        let mut g = Gen { rng, keyspace, model: Model::default(), fresh_hash: 0 };
+        let mut g = Gen { rng, keyspace, model: Model::default(), fresh_hash: 0, last_deleted: None, before_upsert: None };
         let mut ops: Vec<Op> = vec![];
         if let Some(n) = bulk {
             // mostly far away from the ordinary key space; sometimes overlapping it
@@ -1248,6 +1453,18 @@ impl Engine for C18 {
             }
             let conflict = g.rng.below(100) < conflict_pct;
             let op = match KINDS[k] {
+                // put the most recently deleted leaf back exactly as it was (same key, value and
+                // hash; often right away, so that it lands on the blocks the delete freed)
+                "insert" if g.last_deleted.is_some() && g.rng.chance(1, 4) => {
+                    let (key, value, hash) = g.last_deleted.unwrap();
+                    let loc = if g.rng.chance(2, 3) { Loc::Auto } else { g.loc(true) };
+                    Op::Insert { key, value, hash, loc }
+                }
+                // put a key back to the value and hash it had before its last upsert
+                "upsert" if g.before_upsert.is_some() && g.rng.chance(1, 6) => {
+                    let (key, value, hash) = g.before_upsert.unwrap();
+                    Op::Upsert { key, value, hash }
+                }
                 "insert" => {
                     let key = if conflict && g.rng.chance(1, 2) { g.existing_key() } else { None }
                         .or_else(|| if faults { Some(g.rand_key()) } else { g.fresh_key() });
@@ -1326,6 +1543,13 @@ impl Engine for C18 {
                 "lazy" => Op::Lazy,
                 "proofs" => Op::Proofs,
                 "restart_mem" => Op::RestartMem,
+                _ if g.rng.chance(1, 3) => {
+                    // a rebuild needs clean hashes
+                    if g.rng.chance(3, 4) {
+                        ops.push(Op::Lazy);
+                    }
+                    Op::RestartRebuild
+                }
                 _ => Op::RestartFile,
             };
             let predicted_ok = g.model.predict(&op) == Expect::Ok;
@@ -1333,6 +1557,11 @@ impl Engine for C18 {
                 continue;
             }
             if predicted_ok {
+                match &op {
+                    Op::Delete { key } => g.last_deleted = g.model.kv.get(key).map(|(v, h)| (*key, *v, *h)),
+                    Op::Upsert { key, .. } => g.before_upsert = g.model.kv.get(key).map(|(v, h)| (*key, *v, *h)),
+                    _ => {}
+                }
                 g.model.apply(&op);
             }
             let failed = !predicted_ok;
@@ -1371,7 +1600,7 @@ impl Engine for C18 {
                 Op::Insert { key, value, hash, loc } if *loc != Loc::Auto => {
                     alts.push(Op::Insert { key: *key, value: *value, hash: *hash, loc: Loc::Auto });
                 }
-                Op::RestartFile => alts.push(Op::RestartMem),
+                Op::RestartFile | Op::RestartRebuild => alts.push(Op::RestartMem),
                 Op::ChainBuild { n, base, hash_base, right } if *n > 1 => {
                     alts.push(Op::ChainBuild { n: n / 2, base: *base, hash_base: *hash_base, right: *right });
                     alts.push(Op::ChainBuild { n: n - 1, base: *base, hash_base: *hash_base, right: *right });
